@@ -561,3 +561,107 @@ theorem weightnorm_triWF {n : ℕ} {t : Tri.TriAffine ℝ} (h : TriWF n t) (sc :
       exact mul_ne_zero (weightnorm_factor_ne _ _ hsq.1 i hi (htri.diag_ne i hi) (hne i hi)) (htri.diag_ne i hi)
 
 end TriPf
+
+/-! ## the GENERATED `triangular_spline_flow.make_layer` (g25): the layer as constructed satisfies `TriSplineOK` -/
+section GenTriSpline
+open Gen Flows
+namespace FlowsPf
+
+theorem atSet_square {n : ℕ} (a : List (List ℝ)) (idx : List (ℕ × ℕ)) (v : ℝ) (h : TriPf.Square n a) :
+    TriPf.Square n (atSet a idx v) := by
+  obtain ⟨h1, h2⟩ := h
+  refine ⟨by simp [atSet, h1], fun r hr => ?_⟩
+  obtain ⟨i, hi, rfl⟩ := List.mem_iff_getElem.mp hr
+  simp only [atSet, List.getElem_mapIdx, List.length_mapIdx]
+  exact h2 _ (List.getElem_mem _)
+
+/-- the layer AS CONSTRUCTED by the generated `make_layer` satisfies `TriSplineOK` -/
+theorem triSplineInitNet_ok (dim : ℕ) {m : ℝ} (hm : 0 < m) {knots : ℕ} (hk : 1 ≤ knots) (cond_dim : Option ℕ)
+    (key : TriSplineKey ℝ) (hsq : TriPf.Square dim key.1) (hc : cond_dim.isSome → key.2.2.length = dim) :
+    TriSplineOK dim m (triSplineInitNet dim knots cond_dim key) := by
+  refine ⟨hm, by simp [triSplineInitNet], ?_, ?_, ?_⟩
+  · intro s hs
+    simp only [triSplineInitNet] at hs
+    rw [List.eq_of_mem_replicate hs]
+    refine rqsFamily_wf (cfg := ⟨knots, (-1, 1), 0.01, 0.001⟩) ⟨hk, ?_, ?_, ?_, ?_⟩ []
+    · simp; omega
+    · norm_num
+    · norm_num
+    · norm_num
+  · have hA := atSet_square key.1 (diagIndices dim) 1 hsq
+    set arr := atSet key.1 (diagIndices dim) (1 : ℝ) with harr
+    have hr : ((Tri.diag arr).map fun v => (Params.softplusInit v).arr).length = dim := by
+      rw [List.length_map, TriPf.diag_eq_ofFn dim arr hA.1, List.length_ofFn]
+    have hwf := TriPf.ofRaw_wf true ((Tri.diag arr).map fun v => (Params.softplusInit v).arr) arr (zeros dim) hA hr
+      (by simp [zeros])
+    have hlen := (TriPf.TriWF.sq hwf).1
+    refine TriPf.weightnorm_triWF (t := Tri.ofRaw true _ arr (zeros dim)) hwf _ ?_ fun i hi => ?_
+    · simp only [List.length_map]; exact hlen
+    · have gen : ∀ l : List (List ℝ), i < l.length →
+          ((l.map fun row => (Params.softplusInit (1 / Transc.sqrt (Jnp.dot row row))).arr).map
+            fun r => (Params.softplusRaw r).unwrap).getD i 0 ≠ 0 := by
+        intro l hl
+        simp only [List.map_map, List.getD_eq_getElem?_getD, List.getElem?_map, List.getElem?_eq_getElem hl,
+          Option.map_some, Option.getD_some, Function.comp]
+        exact (ParamsPf.softplusRaw_pos _).ne'
+      exact gen _ (by rw [show (WMat.unwrap (triangularAffineOf (zeros dim) arr).triangular).length = dim from hlen]; exact hi)
+  · intro W hW
+    cases cond_dim with
+    | none => simp [triSplineInitNet] at hW
+    | some cd =>
+      simp only [triSplineInitNet, Option.map_some, Option.some.injEq] at hW
+      subst hW; exact hc rfl
+
+/-- hypotheses on the keys of the generated factory: `tanh_max_val > 0`, `knots ≥ 1`, every `init(lt_key, (dim, dim))` is
+`dim × dim`, every `Linear` weight has `dim` rows when conditional, every `jr.permutation` result is a permutation -/
+structure GenTriSplineKeysOK (dim : ℕ) (m : ℝ) (knots : ℕ) (cond_dim : Option ℕ) (key : ℕ → TriSplineKey ℝ) (n : ℕ) : Prop where
+  max_val : 0 < m
+  knots : 1 ≤ knots
+  weights : ∀ i < n, TriPf.Square dim (key i).1
+  cond : ∀ i < n, cond_dim.isSome → (key i).2.2.length = dim
+  perm : ∀ i < n, PermKeyOK dim (key i).2.1
+
+theorem GenTriSplineKeysOK.net {dim : ℕ} {m : ℝ} {knots : ℕ} {cond_dim : Option ℕ} {key : ℕ → TriSplineKey ℝ} {n : ℕ}
+    (h : GenTriSplineKeysOK dim m knots cond_dim key n) :
+    ∀ i < n, TriSplineOK dim m (genTriSplineKey dim knots cond_dim key i).1 :=
+  fun i hi => triSplineInitNet_ok dim h.max_val h.knots cond_dim (key i) (h.weights i hi) (h.cond i hi)
+
+/-- C01 on the REGENERATED closure: the flow whose layers are the generated `make_layer` is a lawful bijection of `ℝ^dim` -/
+theorem gen_tri_spline_flow_lawful {dim : ℕ} {m : ℝ} {knots : ℕ} {cond_dim : Option ℕ} {key : ℕ → TriSplineKey ℝ} {n : ℕ}
+    (h : GenTriSplineKeysOK dim m knots cond_dim key n) (invert : Bool) :
+    (genTriSplineFlowBij dim m knots cond_dim key n invert).Lawful (Vec dim) (Vec dim) := by
+  rw [genTriSplineFlowBij_eq]
+  exact tri_spline_flow_lawful dim m _ n invert h.net h.perm
+
+/-- C03 on the regenerated closure -/
+theorem gen_tri_spline_flow_ldAntisym {dim : ℕ} {m : ℝ} {knots : ℕ} {cond_dim : Option ℕ} {key : ℕ → TriSplineKey ℝ} {n : ℕ}
+    (h : GenTriSplineKeysOK dim m knots cond_dim key n) (invert : Bool) :
+    (genTriSplineFlowBij dim m knots cond_dim key n invert).LdAntisym (Vec dim) := by
+  rw [genTriSplineFlowBij_eq]
+  exact tri_spline_flow_ldAntisym dim m _ n invert h.net h.perm
+
+/-- a 2-layer conditional generated flow on `ℝ³` (`knots = 4`, `tanh_max_val = 3`, `cond_dim = 2`): two different weight
+matrices (both signs, non-unit diagonals that `.set(1)` overwrites), two different permutations, two condition matrices -/
+noncomputable def genTriKeys : ℕ → TriSplineKey ℝ := fun i =>
+  if i = 0 then ([[5, -1, 2], [1 / 2, -3, 0], [-2, 1, 0]], [2, 0, 1], [[1, 0], [-2, 1], [0, 3]])
+  else ([[0, 0, 0], [-1, 0, 7], [4, -4, 1]], [1, 2, 0], [[0, 0], [1, 1], [-1, 2]])
+
+theorem genTriKeys_ok : GenTriSplineKeysOK 3 3 4 (some 2) genTriKeys 2 := by
+  refine ⟨by norm_num, by norm_num, ?_, ?_, ?_⟩
+  · intro i hi
+    interval_cases i
+    · simp only [genTriKeys, if_true]
+      exact ⟨rfl, by intro r hr; simp at hr; rcases hr with rfl | rfl | rfl <;> rfl⟩
+    · simp only [genTriKeys, one_ne_zero, if_false]
+      exact ⟨rfl, by intro r hr; simp at hr; rcases hr with rfl | rfl | rfl <;> rfl⟩
+  · intro i hi _
+    interval_cases i
+    · simp [genTriKeys]
+    · simp [genTriKeys]
+  · intro i hi _ _
+    interval_cases i
+    · simp only [genTriKeys, if_true]; decide
+    · simp only [genTriKeys, one_ne_zero, if_false]; decide
+
+end FlowsPf
+end GenTriSpline
